@@ -198,6 +198,18 @@ def judge(seed, z_force=None):
         rr = PromoleculeDensity((els, (pos.astype(np.float64) @ R.T + t).astype(np.float32))).rho((pts.astype(np.float64) @ R.T + t).astype(np.float32))
         if not np.allclose(rr, full, rtol=5e-4, atol=1e-10):
             return "density is not invariant under a rigid motion of atoms and points"
+        # far from the coordinate origin (float32 coordinates: ulp 3e-5 A at 300 A, hence the looser tolerance)
+        T = np.array([rng.uniform(-300, 300) for _ in range(3)])
+        posT = (pos.astype(np.float64) + T).astype(np.float32)
+        ptsT = (pts.astype(np.float64) + T).astype(np.float32)
+        near = np.min(np.linalg.norm(pts[:, None, :].astype(np.float64) - pos[None, :, :].astype(np.float64), axis=2), axis=1) > 0.5
+        rT = PromoleculeDensity((els, posT)).rho(ptsT)
+        if near.any() and not np.allclose(rT[near], full[near], rtol=2e-2, atol=1e-9):
+            return f"density changes when atoms and points are translated together by {T.tolist()}"
+        wT = StockholderWeight.from_arrays(els[:k], posT[:k], els[k:], posT[k:]).weights(ptsT)
+        w0 = ra / (ra + rb)
+        if near.any() and not np.allclose(wT[near], w0[near], rtol=2e-2, atol=1e-6):
+            return f"stockholder weights change when atoms and points are translated together by {T.tolist()}"
         for bg in (0.0, 1e-5):
             a = PromoleculeDensity((els[:k], pos[:k]))
             b = PromoleculeDensity((els[k:], pos[k:]))
